@@ -104,7 +104,31 @@ def extract(features=None, overflow=True, deps=False, repo=None, target_dir=None
     cdir = os.path.join(cache_root(), key)
     marker = os.path.join(cdir, "OK")
     if os.path.exists(marker):
+        _touch(cdir)
         return cdir, {"cached": True, "tree_hash": th, "config": config_name(features, overflow, deps)}
+    # one extractor per key: concurrent checks of the same tree wait for the first one instead of
+    # replacing a directory another process may be reading
+    import fcntl
+    lock = open(os.path.join(cache_root(), key + ".lock"), "w")
+    fcntl.flock(lock, fcntl.LOCK_EX)
+    try:
+        if os.path.exists(marker):
+            _touch(cdir)
+            return cdir, {"cached": True, "tree_hash": th, "config": config_name(features, overflow, deps)}
+        return _extract_locked(repo, th, cdir, marker, features, overflow, deps, target_dir, keep_target, crate)
+    finally:
+        fcntl.flock(lock, fcntl.LOCK_UN)
+        lock.close()
+
+
+def _touch(d):
+    try:
+        os.utime(d, None)
+    except OSError:
+        pass
+
+
+def _extract_locked(repo, th, cdir, marker, features, overflow, deps, target_dir, keep_target, crate):
     tmp_out = tempfile.mkdtemp(prefix="scf-out-", dir=cache_root())
     own_target = target_dir is None
     if own_target:
@@ -171,5 +195,14 @@ def prune_cache(max_entries=120):
     if len(ents) <= max_entries:
         return
     ents.sort(key=lambda e: os.path.getmtime(e))
+    now = time.time()
     for e in ents[: len(ents) - max_entries]:
+        if now - os.path.getmtime(e) < 3600:      # possibly in use by a concurrent check
+            continue
         shutil.rmtree(e, ignore_errors=True)
+    for f in os.listdir(root):
+        if f.endswith(".lock") and not os.path.isdir(os.path.join(root, f[:-5])):
+            try:
+                os.remove(os.path.join(root, f))
+            except OSError:
+                pass
